@@ -58,7 +58,10 @@ InitState(p) ==
    sem |-> [x \in 1..Len(P.sems) |-> [avail |-> P.sems[x].n, fair |-> P.sems[x].fair # 0, closed |-> FALSE,
                                        q |-> <<>>, granted |-> {}, held |-> 0]],
    bar |-> [b \in 1..Len(P.barriers) |-> [n |-> P.barriers[b], arrived |-> {}, rel |-> {}, gen |-> 0]],
-   once |-> [x \in 1..P.nonce |-> [st |-> "idle", owner |-> -1]],
+   \* program-declared Once cells, then two `static` Once cells, then the hidden cells of two lazy statics
+   once |-> [x \in 1..(P.nonce + 4) |-> [st |-> "idle", owner |-> -1]],
+   lzv |-> <<0, 0>>, lzdropped |-> {},
+   tls |-> << <<>> >>, dty |-> <<FALSE>>, nm |-> <<-2>>,
    obs |-> [c \in 1..Len(P.tasks) |-> <<>>]]
 
 -----------------------------------------------------------------------------
@@ -134,10 +137,30 @@ SemRelease(s, x, n) ==
   THEN LET sm1 == GrantFront(sm0) IN WakeAll([s EXCEPT !.sem[x+1] = sm1], sm1.granted \ sm0.granted)
   ELSE WakeAll([s EXCEPT !.sem[x+1] = sm0], {w \in SemWaiters(s, x) : SemReq(s, x, w) <= sm0.avail})
 
-(* Once: the race is decided on an internal mutex (owner); completion is recorded before it is released *)
-OnceWaiters(s, x) == {t \in Live(s) : Ph(s, t) = "once_wait" /\ NextOp(s, t).o = x}
+(* Once: the race is decided on an internal mutex (owner); completion is recorded before it is released.
+   The same protocol runs for `static` Once cells and under the first access to a lazy static. *)
+OnceOps == {"call_once", "sonce"}
+LazyOps == {"lz_fadd", "lz_load"}
+OIdx(s, t) == LET o == NextOp(s, t) IN
+              IF o.k = "sonce" \/ o.k = "sonce_done" THEN Prog(s).nonce + o.o
+              ELSE IF o.k \in LazyOps THEN Prog(s).nonce + 2 + o.o ELSE o.o
+OnceWaiters(s, x) == {t \in Live(s) : Ph(s, t) = "once_wait" /\ OIdx(s, t) = x}
 OnceAcquire(s, t, x) == ClearXr([s EXCEPT !.ph[t+1] = "once_in", !.once[x+1].owner = t, !.xr[t+1] = FALSE], OnceWaiters(s, x) \ {t})
 OnceRelease(s, x) == WakeAll([s EXCEPT !.once[x+1].owner = -1], OnceWaiters(s, x))
+
+(* Thread-locals: per task, slots in initialisation order; `live` slots are destructed in that order at
+   thread exit; a destructed slot stays behind as a tombstone (access = error, never re-initialised) *)
+TlsIdx(s, t, k) == {i \in 1..Len(s.tls[t+1]) : s.tls[t+1][i].key = k}
+TlsLive(s, t) == SelectSeq(s.tls[t+1], LAMBDA x : x.live)
+TlsRead(s, t, k) ==   \* value seen by an access to key k (lazily initialised to 100 + k), -7 = access error
+  IF TlsIdx(s, t, k) = {} THEN [v |-> 100 + k]
+  ELSE LET sl == s.tls[t+1][CHOOSE i \in TlsIdx(s, t, k) : TRUE] IN IF sl.live THEN [v |-> sl.val] ELSE [v |-> -7]
+TlsTouch(s, t, k) ==  \* an access initialises the slot if this thread has never had one
+  IF TlsIdx(s, t, k) = {} THEN [s EXCEPT !.tls[t+1] = Append(@, [key |-> k, live |-> TRUE, val |-> 100 + k])] ELSE s
+TlsWrite(s, t, k, v) == LET i == CHOOSE j \in TlsIdx(s, t, k) : TRUE IN [s EXCEPT !.tls[t+1][i].val = v]
+TlsKill(s, t) ==      \* the first live slot is destructed
+  LET i == CHOOSE j \in 1..Len(s.tls[t+1]) : s.tls[t+1][j].live /\ \A h \in 1..(j-1) : ~s.tls[t+1][h].live IN
+  [s EXCEPT !.tls[t+1][i].live = FALSE]
 
 -----------------------------------------------------------------------------
 (* Diagnosed misuse: the operation panics instead of blocking forever *)
@@ -173,7 +196,8 @@ CanComplete(s, t) ==
                           ELSE Disc(c) \/ (o.k = "try_recv" /\ TryRecvEmpty(c)) \/ (c.buf # <<>> /\ c.waitR = <<>>)
        [] o.k = "barrier_wait" -> LET b == s.bar[o.o+1] IN
                           IF p = "wait" THEN t \in b.rel ELSE Cardinality(b.arrived) + 1 >= b.n
-       [] o.k = "call_once" -> (p = "ready" /\ s.once[o.o+1].st = "done") \/ p \in {"once_skip", "once_fin"}
+       [] o.k \in OnceOps -> (p = "ready" /\ s.once[OIdx(s, t)+1].st = "done") \/ p \in {"once_skip", "once_fin"}
+       [] o.k \in LazyOps -> (p = "ready" /\ s.once[OIdx(s, t)+1].st = "done") \/ p = "lz_go"
        [] o.k = "acquire" -> LET sm == s.sem[o.o+1] IN
                           IF p = "wait" THEN sm.closed \/ (IF sm.fair THEN t \in sm.granted ELSE o.v <= sm.avail)
                           ELSE sm.closed \/ (o.v <= sm.avail /\ (~sm.fair \/ sm.q = <<>>))
@@ -186,11 +210,13 @@ Complete(s, t) ==
       base == [s EXCEPT !.pc[t+1] = @ + 1, !.ph[t+1] = "ready", !.ind[t+1] = 0, !.xr[t+1] = FALSE]
       R(r, s2) == [r |-> r, s |-> [s2 EXCEPT !.acc[t+1] = r]]
   IN
-  CASE o.k = "spawn" ->
+  CASE o.k \in {"spawn", "spawn_named"} ->
          R(s.n, [base EXCEPT !.n = @ + 1, !.ix = Append(@, o.v), !.pc = Append(@, 1), !.ph = Append(@, "ready"),
                              !.fin = Append(@, FALSE), !.acc = Append(@, 0), !.retv = Append(@, 0), !.ind = Append(@, 0),
                              !.wk = Append(@, FALSE), !.xr = Append(@, FALSE), !.tok = Append(@, FALSE),
-                             !.unpk = Append(@, FALSE), !.gd = Append(@, [i \in 1..NSlots |-> NoGuard])])
+                             !.unpk = Append(@, FALSE), !.gd = Append(@, [i \in 1..NSlots |-> NoGuard]),
+                             !.tls = Append(@, <<>>), !.dty = Append(@, FALSE),
+                             !.nm = Append(@, IF o.k = "spawn_named" THEN o.v ELSE -1)])
     [] o.k = "join" -> R(s.retv[ChildId(s, o.v) + 1], base)
     [] o.k \in {"yield", "spin"} -> R(0, Wake(base, t))
     [] o.k \in {"sleep", "nop"} -> R(0, base)
@@ -289,11 +315,21 @@ Complete(s, t) ==
          IF p = "wait" THEN R(0, [base EXCEPT !.bar[o.o+1].rel = @ \ {t}])
          ELSE R(1, [base EXCEPT !.bar[o.o+1] = [@ EXCEPT !.rel = @ \cup s.bar[o.o+1].arrived, !.arrived = {}, !.gen = @ + 1]])
     \* ---- Once
-    [] o.k = "call_once" ->
+    [] o.k \in OnceOps ->
          (CASE p = "ready" -> R(0, base)
-            [] p = "once_skip" -> R(0, OnceRelease(base, o.o))
-            [] p = "once_fin" -> R(1, OnceRelease(base, o.o)))
-    [] o.k = "is_completed" -> R(IF s.once[o.o+1].st = "done" THEN 1 ELSE 0, base)
+            [] p = "once_skip" -> R(0, OnceRelease(base, OIdx(s, t)))
+            [] p = "once_fin" -> R(1, OnceRelease(base, OIdx(s, t))))
+    [] o.k \in {"is_completed", "sonce_done"} -> R(IF s.once[OIdx(s, t)+1].st = "done" THEN 1 ELSE 0, base)
+    \* ---- lazy statics (the value lives in per-execution storage)
+    [] o.k = "lz_fadd" -> R(s.lzv[o.o+1], [base EXCEPT !.lzv[o.o+1] = (@ + o.v) % 256])
+    [] o.k = "lz_load" -> R(s.lzv[o.o+1], base)
+    \* ---- thread-locals: one lazily initialised instance per thread; dead slots are never resurrected
+    [] o.k \in {"tls_get", "tls_set"} ->
+         LET r == TlsRead(s, t, o.o) IN
+         R(r.v, IF o.k = "tls_set" /\ r.v # -7 THEN TlsWrite(TlsTouch(base, t, o.o), t, o.o, o.v) ELSE TlsTouch(base, t, o.o))
+    \* ---- identity
+    [] o.k = "tid" -> R(t, base)
+    [] o.k = "name" -> R(s.nm[t+1], base)
     \* ---- BatchSemaphore
     [] o.k = "acquire" ->
          LET sm == s.sem[o.o+1] IN
@@ -330,17 +366,18 @@ CanBlock(s, t) ==
   /\ ~s.fin[t+1]
   /\ PanicKind(s, t) = ""
   /\ CASE p = "ready" ->
-            (CASE o.k = "exit" -> TRUE
-               [] o.k = "cv_wait" -> TRUE
+            (CASE o.k = "cv_wait" -> TRUE
                [] o.k = "park" -> ~s.tok[t+1]
-               [] o.k = "call_once" -> s.once[o.o+1].st # "done"
+               [] o.k = "exit" -> TlsLive(s, t) = <<>>     \* every thread-local destructor has run
+               [] o.k \in OnceOps \cup LazyOps -> s.once[OIdx(s, t)+1].st # "done"
                [] o.k \in {"lock", "join", "read", "write", "send", "recv", "try_recv", "barrier_wait", "acquire"} -> ~CanComplete(s, t)
                [] OTHER -> FALSE)
        [] p = "cvwait" -> HasSignal(s, o.o, t)
        [] p = "relock" -> ~MFree(s, o.v)
        [] p \in {"wait", "relockwait"} -> s.xr[t+1] /\ ~CanComplete(s, t)
-       [] p = "once_wait" -> s.once[o.o+1].owner = -1 \/ s.xr[t+1]
+       [] p = "once_wait" -> s.once[OIdx(s, t)+1].owner = -1 \/ s.xr[t+1]
        [] p \in {"once_lk", "once_in", "once_body"} -> TRUE
+       [] p \in {"once_skip", "once_fin"} -> o.k \in LazyOps
        [] OTHER -> FALSE
 
 Block(s, t) ==
@@ -358,21 +395,23 @@ Block(s, t) ==
            [] o.k \in {"recv", "try_recv"} -> [s EXCEPT !.ph[t+1] = "wait", !.ch[o.o+1].waitR = Append(@, t)]
            [] o.k = "barrier_wait" -> [s EXCEPT !.ph[t+1] = "wait", !.bar[o.o+1].arrived = @ \cup {t}]
            \* not complete yet: the caller is now committed to go through the internal lock
-           [] o.k = "call_once" -> SetPh(s, t, "once_lk"))
+           [] o.k \in OnceOps \cup LazyOps -> SetPh(s, t, "once_lk"))
     [] p = "once_lk" ->
-         IF s.once[o.o+1].owner = -1 THEN OnceAcquire(s, t, o.o) ELSE EnterPollWait(s, t, "once_wait")
+         IF s.once[OIdx(s, t)+1].owner = -1 THEN OnceAcquire(s, t, OIdx(s, t)) ELSE EnterPollWait(s, t, "once_wait")
     [] p = "cvwait" -> SetPh(Consume(s, o.o, t), t, "relock")
     [] p = "relock" -> EnterPollWait(s, t, "relockwait")
     [] p \in {"wait", "relockwait"} -> Repoll(s, t)
     [] p = "once_wait" ->
-         IF s.once[o.o+1].owner = -1 THEN OnceAcquire(s, t, o.o)
+         IF s.once[OIdx(s, t)+1].owner = -1 THEN OnceAcquire(s, t, OIdx(s, t))
          ELSE Repoll(s, t)
     [] p = "once_in" ->
-         IF s.once[o.o+1].st = "done" THEN SetPh(s, t, "once_skip")
+         IF s.once[OIdx(s, t)+1].st = "done" THEN SetPh(s, t, "once_skip")
          ELSE SetPh(s, t, "once_body")
     [] p = "once_body" ->   \* the initializer's visible effect, then completion is recorded
-         LET s1 == IF o.w >= 0 THEN [s EXCEPT !.av[o.w+1] = o.v % 256] ELSE s IN
-         [s1 EXCEPT !.ph[t+1] = "once_fin", !.once[o.o+1].st = "done"]
+         LET s1 == IF o.k \in OnceOps /\ o.w >= 0 THEN [s EXCEPT !.av[o.w+1] = o.v % 256] ELSE s IN
+         [s1 EXCEPT !.ph[t+1] = "once_fin", !.once[OIdx(s, t)+1].st = "done"]
+    \* a lazy static: the internal lock is released, the access itself follows
+    [] p \in {"once_skip", "once_fin"} -> SetPh(OnceRelease(s, OIdx(s, t)), t, "lz_go")
 
 -----------------------------------------------------------------------------
 (* Scheduler-visible status, derived from the abstract state *)
@@ -385,8 +424,8 @@ Progress(s, t) ==
     [] p = "relock" -> TRUE
     [] p = "relockwait" -> MFree(s, o.v) \/ s.xr[t+1]
     [] p = "parked" -> s.unpk[t+1]
-    [] p = "once_wait" -> s.once[o.o+1].owner = -1 \/ s.xr[t+1]
-    [] p \in {"once_lk", "once_in", "once_body", "once_skip", "once_fin"} -> TRUE
+    [] p = "once_wait" -> s.once[OIdx(s, t)+1].owner = -1 \/ s.xr[t+1]
+    [] p \in {"once_lk", "once_in", "once_body", "once_skip", "once_fin", "lz_go"} -> TRUE
     [] OTHER -> FALSE
 
 \* ---- step bound (Config::max_steps): counted in schedule entries = decisions + random draws
